@@ -288,7 +288,10 @@ def _posoargs_end(end, _posoargs, func, *args, **kwargs):
     if isinstance(original, _PokTranslator):
         # re-created for a bound version of original.func: when binding
         # consumed the parameter the selection ends at, nothing is left of it
-        found = end in _consumed_by_binding(original.func, func)
+        consumed = _consumed_by_binding(original.func, func)
+        found = end in consumed
+        # names given explicitly next to end= that binding consumed as well
+        posoarg_names -= consumed
     sig = _specifiers.forged_signature(func, auto=False).parameters.values()
     for param in sig:
         if param.kind == param.POSITIONAL_OR_KEYWORD:
